@@ -706,6 +706,14 @@ protected:
     return false;
   }
 
+  /// \brief ASCII-only lower-casing for HTTP field names and tokens (RFC 9110:
+  /// case-insensitivity is defined over ASCII). ::tolower on a plain char is
+  /// undefined for bytes >= 0x80 where char is signed, and locale dependent.
+  static char asciiLower(char c)
+  {
+    return (c >= 'A' && c <= 'Z') ? static_cast<char>(c - 'A' + 'a') : c;
+  }
+
   /// \brief Handle incoming data from a session
   void handleIncomingData(SessionId sid, const std::uint8_t *data, std::size_t len)
   {
@@ -813,7 +821,7 @@ protected:
           value.erase(value.find_last_not_of(" \t") + 1);
 
           // Convert key to lowercase for comparison
-          std::transform(key.begin(), key.end(), key.begin(), ::tolower);
+          std::transform(key.begin(), key.end(), key.begin(), asciiLower);
 
           if (key == "content-length")
           {
@@ -862,7 +870,7 @@ protected:
             // the NEXT request (request smuggling). Remember the final coding of
             // the last Transfer-Encoding line; anything but "chunked" is rejected
             // below like every other invalid length.
-            std::transform(value.begin(), value.end(), value.begin(), ::tolower);
+            std::transform(value.begin(), value.end(), value.begin(), asciiLower);
             haveTransferEncoding = true;
             std::string finalCoding;
             std::size_t tokStart = 0;
@@ -1116,7 +1124,7 @@ protected:
         for (const auto &[hdrKey, hdrVal] : req.headers)
         {
           std::string lowerKey = hdrKey;
-          std::transform(lowerKey.begin(), lowerKey.end(), lowerKey.begin(), ::tolower);
+          std::transform(lowerKey.begin(), lowerKey.end(), lowerKey.begin(), asciiLower);
           if (lowerKey == "upgrade")
           {
             Response upgradeRes;
@@ -1333,7 +1341,7 @@ protected:
           std::string token = connValue.substr(tokStart, tokEnd - tokStart);
           token.erase(0, token.find_first_not_of(" \t"));
           token.erase(token.find_last_not_of(" \t") + 1);
-          std::transform(token.begin(), token.end(), token.begin(), ::tolower);
+          std::transform(token.begin(), token.end(), token.begin(), asciiLower);
           if (token == "close")
           {
             shouldCloseConnection = true;
